@@ -15,38 +15,38 @@ BUILT = {
          "All ordered pairs of dimensionality representatives under 10 binary operators, 27 unary/function applications over every unit, and depth-2 trees, judged by an independent dimensional algebra over the registry dump.",
          "registry dump trusted (validated by C08); unjudged function/dimension combinations are recorded only", "3/C02"),
  "C03": ("exploration", "exhaustive enumeration of all ordered conformable unit pairs, unit x other-dimensionality refusals, prefix/plural targets and compound targets against exact rational reference",
-         "Every ordered pair of conformable registry units (641k), every unit against every other dimensionality, prefixed/plural targets and compound source/target shapes are converted by the real code and compared exactly with v/t from the registry dump; suggestions of conformance errors are parsed back and checked.",
+         "Every ordered pair of conformable registry units (641k), every unit against every other dimensionality, prefixed/plural targets, compound source/target shapes (incl. zero-valued targets and constants 1e-400/1e400 outside the f64 range) and powers of prefixed targets are converted by the real code and compared exactly with v/t from the registry dump; suggestions of conformance errors are parsed back and checked.",
          "unit values from the registry dump; one float-valued unit compared approximately", "3/C03"),
  "C05": ("exploration", "bounded-exhaustive enumeration of rationals x bases x digit modes, printed numerals read back by an independent numeral reader",
          "All p/q up to a bound plus boundary families in every base and digits mode are printed by the real formatter and read back by an independent reader that decides exact/approximate denotation.",
          "values beyond the families (other huge periods) are out of reach; exponent is read as decimal scaling by base^k", "3/C05"),
- "C07": ("exploration", "exhaustive enumeration of every prefix+name[+s] string of the bundled database (2 configurations) all 2^10 sub-databases of a colliding pool, and load histories (base database + every subset / ordered pair of 7 redefinitions as further files) against an independent resolver",
+ "C07": ("exploration", "exhaustive enumeration of every prefix+name[+s] string of the bundled database (2 configurations) all 2^11 sub-databases of a colliding pool, and load histories (base database + every subset / ordered pair of 7 redefinitions as further files) against an independent resolver",
          "Every one of ~1.1M prefix+unit[+s] names is looked up on two independent loads and compared with a reference resolver; canonicalisation must preserve the denotation; databases built by several loads on one Context are enumerated as histories. One open known finding (stale alias after a later load redefines its target).",
          "competing prefix splits are all accepted (statement does not rank them)", "3/C07"),
  "C08": ("exploration", "exhaustive per-entry fixed-point evaluation of every stored definition and every prefix line in both configurations plus whole-database invariants",
-         "Each of ~2500 definitions is re-evaluated in the loaded context and compared with the stored value, in both feature configurations; each of the 118 prefix lines is re-read from the bundled text and compared with the prefix table; load output is captured at fd level.",
+         "Each of ~2500 definitions is re-evaluated in the loaded context and compared with the stored value, in both feature configurations; each of the 118 prefix lines is re-read from the bundled text and compared with the prefix table; each of ~2400 unit lines is re-read as text by an own line splitter, parsed by the query parser (not the loader's) and compared with the stored value; load output is captured at fd level.",
          "Debug output shows all registry fields", "3/C08"),
  "C09": ("exploration", "exhaustive enumeration of ordered unit lists (length 2-6) x boundary rational values per dimensionality, checked against the statement's four clauses",
          "All ordered lists with repetition over up to 6 units of every dimensionality with >=2 units, for 11-13 values each, plus every non-conformable position and 151 durations, near-multiple values (k +- e) a for every group.",
          "negative-valued units excluded (sign clause ill-posed)", "3/C09"),
  "C10": ("exploration", "exhaustive enumeration of x values x all 26x26 scale spellings, chains over all 6^3 scale triples and refusal shapes against hard-coded textbook affine maps",
-         "Every ordered pair of the 26 scale spellings for each boundary x, all scale triples as chains, and 12 refusal shapes per spelling.",
+         "Every ordered pair of the 26 scale spellings for each boundary x, all scale triples as chains, 12 refusal shapes per spelling, and 4 dimensioned operands under every spelling converted to every spelling.",
          "textbook constants hard-coded in the harness", "3/C10"),
  "C11": ("exploration", "bounded-exhaustive enumeration of expression trees (every constructor in every operand position up to 2/3 operator nodes) and every bundled definition, print -> parse round trip on three printers",
          "Every tree with <=2 (thorough <=3) operator nodes over 22 constructors is parsed, printed by Display / serde ExprString / ExprReply and re-parsed; all bundled definition expressions too.",
          "ExprReply parts joined by single spaces; inexact numerals excluded as the statement says", "3/C11"),
 
  "C04": ("exploration", "bounded-exhaustive input-space enumeration (token soups, single-deviation mutations, ladders, all short strings, grammar trees) on the real evaluator in watchdog-guarded worker processes, plus the real CLI binary",
-         "Every token sequence up to length 3/4 over a 68-token alphabet, every single-character deviation of every test/manual query, depth/length ladders to 500 characters, all 1-2(3)-character strings and small expression trees (also as conversion targets) are evaluated and rendered in all three output forms under catch_unwind, an 8 MiB stack, a 2 GiB address space and a per-case watchdog; the same inputs are fed to the real `rink -f -`.",
+         "Every token sequence up to length 3/4 over a 68-token alphabet, every single-character deviation of every test/manual query, depth/length ladders to 500 characters, all 1-2(3)-character strings, small expression trees (also as conversion targets), unit powers composed from small exponents and date literals with boundary years are evaluated and rendered in all three output forms under catch_unwind, an 8 MiB stack, a 2 GiB address space and a per-case watchdog; the same inputs are fed to the real `rink -f -`.",
          "inputs outside the alphabets (longer soups, multi-deviation mutations) are out of reach; expensive inputs are classified by a static textual rule", "3/C04"),
  "C06": ("exploration", "exhaustive enumeration of every unit x SI-prefix-boundary magnitudes x powers, all base-unit products, conversion-target shapes, digit/base modes and substances; printed parts read back with an independent numeral reader and Context::lookup",
          "Every numeric reply over the swept space is decomposed into numeral, factor, divfactor and printed unit names; numeral x factor x product of the names (read back the way rink reads names) must equal the quantity computed from the registry dump.",
          "temperature-scale replies are C10's; float-valued units skipped", "3/C06"),
  "C12": ("exploration", "exhaustive enumeration of all 5040 permutations of dependency-closed definition subsets, bundled-database reorders/rotations, and all file-split assignments through the real binary, comparing whole-registry dumps",
-         "All permutations of dependency-closed 7-subsets of a 22-definition pool, all 5040 text orders of 7 snippets x 36 splits into files parsed as files, the bundled database reversed/sorted/dependency-reversed/rotated, and a 6-definition extension set split over two files in all assignments (real `rink --dump`) must yield byte-identical registry dumps and identical error multisets.",
+         "All permutations of dependency-closed 7-subsets of a 22-definition pool, all 5040 text orders of 7 snippets x 36 splits into files parsed as files, the bundled database reversed/sorted/dependency-reversed/rotated, and a 6-definition extension set split over two files in all assignments x 4 file endings (real `rink --dump`) must yield byte-identical registry dumps and identical error multisets.",
          "duplicated names in the shipped file are reduced to their last occurrence first (premise of the statement)", "3/C12"),
  "C13": ("exploration", "deviation-bounded exhaustive enumeration of file mutations, definition token soups, dependency cycles/chains, malformed substances, JSON truncations/edits and date-pattern soups against the real loaders under watchdog",
-         "0 and every single deviation of the bundled files, every definitions file of <=4/5 tokens, cycles of length 1..5000 through eleven namespace shapes, chains to 10000, every truncation and field edit of the currency JSON: the load must terminate without panic/abort, report what the harness can prove is a problem, and leave a usable context.",
+         "0 and every single deviation of the bundled files, every definitions file of <=4/5 tokens, cycles of length 1..5000 through eleven namespace shapes, chains to 10000, zero-valued substance properties in 10 representations, exponent boundary values in definitions, every truncation and field edit of the currency JSON: the load must terminate without panic/abort, report what the harness can prove is a problem, and leave a usable context.",
          "nesting deeper than realistic files is out of scope; reporting clause judged only where provable", "3/C13"),
  "C14": ("exploration", "exhaustive enumeration of boundary instants x pattern forms x zone spellings, durations, all zone names and all +-HH:MM offsets against own proleptic-Gregorian arithmetic",
          "Every boundary instant in 10 pattern forms and 11 zone spellings, (d+t)-d and (d-t)+t for 26 whole-nanosecond durations, all ordered pairs of a core of instants, every chrono-tz zone and every +-HH:MM offset (HH,MM 00..99) as conversion target.",
@@ -57,12 +57,12 @@ BUILT = {
  "C16": ("exploration", "exhaustive enumeration of every substance x property x amounts (forward, inverse, wrong dimension, scaling) and of formulas over every element symbol against exact rational reference",
          "Every property of every substance for 5 amounts in both directions, scaling by k and 1/k, every element symbol with boundary counts, symbol pairs, compounds and near-miss strings.",
          "ambiguously named properties skipped (statement's restriction); intensive properties in listings not judged", "3/C16"),
- "C17": ("exploration", "exhaustive enumeration of every named quantity / registry dimensionality / small base-unit product in three spellings for `units for` and `factorize` against the registry dump",
+ "C17": ("exploration", "exhaustive enumeration of every named quantity / registry dimensionality / small base-unit product in five spellings (name, unit, base-unit product, product with zero-power factors) for `units for` and `factorize` against the registry dump",
          "For each dimensionality the listed units must equal the dump's non-alias units of that exponent vector under their categories, and every factorization must multiply out; answers must not depend on the spelling.",
          "factorize explored up to a complexity bound", "3/C17"),
 
- "C18": ("fault_enumeration", "exhaustive enumeration of fault sequences (6 request kinds, length <= 2/4, two gap lengths) against the real Sandbox with real child processes, one parent process per sequence",
-         "Every sequence over {normal, panic, time-limit overrun, memory exhaustion, child exit, large payload} up to the length bound, followed by two normal requests, at two inter-request gaps, is executed against the real parent/child code; replies are matched to requests by unique operands and process ids are tracked.",
+ "C18": ("fault_enumeration", "exhaustive enumeration of fault sequences (7 request kinds, length <= 2/4, two gap lengths) and idle-gap sequences (normal / slow-but-legal / long idle / short idle) against the real Sandbox with real child processes, one parent process per sequence",
+         "Every sequence over {normal, panic, time-limit overrun, memory exhaustion, child exit, large payload} up to the length bound, followed by two normal requests, at two inter-request gaps, and every sequence of legal requests and idle pauses around the time limit, is executed against the real parent/child code; replies are matched to requests by unique operands and process ids are tracked.",
          "real time: 700 ms service limit, anomalies re-run once before being believed; sequences longer than the bound are out of reach", "3/C18"),
  "C19": ("model_checking", "explicit-state BFS over allocator operation histories on the real Alloc (sequential) plus loom exploration of every interleaving of 2-3 threads on the allocator source derived textually from the repository file",
          "Sequential: BFS with state canonicalisation to depth 6 (thorough 10) where every transition is replayed on a fresh real allocator against an integer byte counter. Concurrent: 448 harness bodies (2 threads x 1-2 ops unbounded, 3 threads x 1 op at preemption bound 2 / unbounded) under loom on the repository's own allocator text compiled against loom atomics, with a call/return timeline oracle for usage, limit and peak.",
